@@ -33,7 +33,9 @@ type Result struct {
 	SimNS        int64          `json:"sim_ns"`
 	Steps        int            `json:"steps"`
 	Inconclusive int            `json:"inconclusive,omitempty"`
-	Sample       any            `json:"sample,omitempty"`
+	// StepBudgetHit: the run stopped because the scheduler's step budget ran out.
+	StepBudgetHit bool `json:"step_budget_hit,omitempty"`
+	Sample        any  `json:"sample,omitempty"`
 	// Tail of the canonical log (kept only for violations and samples).
 	Tail []string `json:"tail,omitempty"`
 	// Log is the complete canonical log (determinism self-test only).
